@@ -172,6 +172,15 @@ def rule_AB(run: Run) -> RuleResult:
                     any("dotted_key_exists(Child(key),options)" in c[2] and (c[1] != c[2].startswith("unop:Not(")) is False for c in conds)
                 has_default = any(("cmp:Is(Child(default),Const(MISSING))" in c[2] and c[1] is False) or
                                   ("cmp:IsNot(Child(default),Const(MISSING))" in c[2] and c[1] is True) for c in conds)
+                # the absent branch must be entered by the failed lookup of the
+                # option's own key only (not by a failed resolution of its value)
+                idx = p.events.index(e)
+                trig = [x for x in p.events[:idx] if x.failed]
+                if name == "evaluate" and trig and not (trig[-1].kind == "call" and trig[-1].text.endswith("get_dotted_key")
+                                                        and [a.key() for a in trig[-1].args[:2]] == ["Child(key)", "options"]):
+                    ok = False
+                    detail = (f"line {e.line}: the default is reached after a failure of `{trig[-1].text}` — only a failed "
+                              f"get_dotted_key(self.key, options) means the key is absent")
                 if not absent:
                     ok = False
                     detail = f"line {e.line}: {e.op} of the default is not confined to the key-absent branch"
@@ -288,7 +297,8 @@ def rule_KN(run: Run) -> RuleResult:
                 n += 1
                 a = r.exc.args
                 ok = len(a) == 2 and ast.unparse(a[1]) == "self"
-                if ok and cls is not None and cls.name == "Option":
+                h0 = _enclosing_handler(fn, r)
+                if ok and cls is not None and cls.name == "Option" and not (h0 is not None and h0.name):
                     ok = ast.unparse(a[0]) == "self.key"
                 elif ok:
                     # translated from a caught exception: key taken from it
